@@ -1,9 +1,13 @@
 // C17 - retries are bounded by the configured number of attempts, per sequence.
 //
 // flows mode : real streams.Stream, response flow `start -> Filter(status_code_range) -hit-> Retry`,
-//              observed through the "proc" hook condition and the RetryRequestAction returned.
+//
+//	observed through the "proc" hook condition and the RetryRequestAction returned.
+//
 // policy mode: real remedies.RetryPlugin on a virtual clock; retry marker = x-lunar-retry-after in a
-//              ModifyResponseAction.
+//
+//	ModifyResponseAction.
+//
 // Oracle: a per-sequence reference machine written from the statement (used retries / active), kept as
 // a SET of admissible states under two conventions for "stray" attempts of a forgotten sequence; a
 // history is violating only when no admissible state under any convention explains the observation.
@@ -50,8 +54,8 @@ func (c retryCfg) key() string {
 type event struct {
 	Seq    int  `json:"seq"`
 	Status int  `json:"status"`
-	Stray  bool `json:"stray,omitempty"`  // new call of an ended sequence arrives with a fresh txn id
-	GapS   int  `json:"gap_s,omitempty"`  // virtual seconds before this response (policy mode)
+	Stray  bool `json:"stray,omitempty"`   // new call of an ended sequence arrives with a fresh txn id
+	GapS   int  `json:"gap_s,omitempty"`   // virtual seconds before this response (policy mode)
 	TellS  bool `json:"as_told,omitempty"` // gap = the cool-down the gateway announced for this sequence
 	// observations (filled while running)
 	TxnID string `json:"txn_id,omitempty"`
@@ -233,9 +237,9 @@ type sut interface {
 
 // flows mode
 type flowSUT struct {
-	env  *sim.StreamEnv
-	clk  *sim.VClock
-	v    *sim.Verdict
+	env   *sim.StreamEnv
+	clk   *sim.VClock
+	v     *sim.Verdict
 	waits int
 }
 
